@@ -877,6 +877,13 @@ func (vm *VirtualMachine) callFunction(
 
 	// Evaluate the function code then return the result from TOS
 	if err := vm.eval(ctx); err != nil {
+		// The failed call may have left operands on the stack. Drop them so
+		// that resumeFrame does not mistake the topmost one for a result and
+		// push it into the caller's frame (visible when try() or another
+		// builtin handles the error and evaluation continues).
+		for vm.sp > baseSP {
+			vm.pop()
+		}
 		return nil, err
 	}
 	return vm.pop(), nil
